@@ -10,6 +10,7 @@ The atom tables travel on the line (`0=<key serialisation hex>,…`, `sha256:0=<
 import MsVerif.Driver.OpsPsbtCore
 import MsVerif.Model.PsbtUpdate
 import MsVerif.Driver.OpsDesc
+import MsVerif.Driver.OpsSpend
 
 namespace MsVerif.Driver
 
@@ -36,8 +37,29 @@ def optHex : Option Script.Bytes → String
   | some b => Hash.toHexW b
   | none => "none"
 
+/-- inline validity facts of a `J spendv` line: `dsig:<dom>:<pk>:<sig>` / `tapcommit:<cb>:<script>:<key>` -/
+def inlineFacts (facts : String) : Option Tables := do
+  let fs := if facts == "-" then [] else facts.splitOn ","
+  fs.foldlM (init := ({} : Tables)) fun t f =>
+    match f.splitOn ":" with
+    | ["dsig", dom, pk, sg] => do
+      let dom ← dom.toNat?; let pk ← Hash.ofHex pk; let sg ← Hash.ofHex sg
+      pure { t with dsigs := (dom, pk, sg) :: t.dsigs }
+    | ["tapcommit", cb, sc, ok] => do
+      let cb ← Hash.ofHex cb; let sc ← Hash.ofHex sc; let ok ← Hash.ofHex ok
+      pure { t with tapcommits := (cb, sc, ok) :: t.tapcommits }
+    | _ => none
+
 def opsPsbt (kind op : String) (args : List String) : Option String :=
   match kind, op, args with
+  -- `Spec/Spend.verifySpend` with the transaction VERSION of the spending transaction (BIP68: a
+  -- relative lock cannot be satisfied in a version-1 transaction)
+  | "J", "spendv", ver :: lt :: sq :: spk :: ss :: wit :: facts :: _ => some <| (do
+      let ver ← ver.toNat?; let lt ← lt.toNat?; let sq ← sq.toNat?
+      let spk ← Hash.ofHex spk; let ss ← Hash.ofHex ss; let wit ← parseHexList wit
+      let t ← inlineFacts facts
+      let env : Spend.SpendEnv := { spendEnv t lt sq with txVersion := ver }
+      pure (showVerdict (Spend.verifySpend env spk ss wit))).getD "bad-args"
   | "C", "psbtupd", [d, keys, hashes] => some <| (do
       let t ← inlineTables keys hashes
       let d ← DescOps.parseDesc d
